@@ -428,7 +428,9 @@ func (v *Vue) callFunc(ctx *VueContext, fn any, args ...any) (any, error) {
 			in[i] = argVal
 		} else if converted, ok := convertValue(argVal, argType); ok {
 			in[i] = converted
-		} else if argVal.Type().ConvertibleTo(argType) {
+		} else if argVal.CanConvert(argType) {
+			// (CanConvert, not Type.ConvertibleTo: a slice converts to an array only
+			// when it is long enough, and Convert panics when it is not)
 			in[i] = argVal.Convert(argType)
 		} else {
 			return nil, fmt.Errorf("cannot convert argument %d from %v to %v", i, argVal.Type(), argType)
